@@ -15,6 +15,13 @@ CHECKS = {
 	},
 }
 
+CHECKS['C09'] = {
+	'text': 'Full on the model: for every node tree satisfying WF and every handler program that does not catch nested failures, Lean proves each handler event is exactly the per-property results of its own children (single/list, order), sibling results never leak, exec yields exactly one result and restores the stack-of-stacks, and nested runs are isolated (the last for all trees). Tied to the code by five correspondence streams (corpus, synthetic Node subclasses through the real Node.procedural/Procedure, malformed trees, real modules, generated programs) and an identity-valued search on the real Procedure.',
+	'note': TB + ' WF (terminal⇒no props; empty property expansion⇒empty _under_expand; no repeated prop key; annotation = run-time shape) is an obligation on definition/*.py that is checked (every exported tree + class table), not proved; each clause shown necessary by a kernel-evaluated witness. Nested-processing sentence is false for a handler that catches a nested failure (exec lacks finally): no such handler exists in tranp; witness replayed as information.',
+	'technique': 'Lean 4 stack-machine model refined to a denotational semantics by mutual structural induction + differential correspondence + identity-valued search',
+	'ref': 'DESIGN.md §5 C09, §10',
+}
+
 NOT_YET = {
 }
 
